@@ -171,8 +171,8 @@ def s10_stacking(ctx):
     """deterministic sweep of the stacking window: alongside length x orientation x start position x map offset x threshold"""
     from shapely.geometry import LineString, Polygon
 
-    res = StreamResult("S10-stacking", rule="a trace planted alongside a longer one at 0.5 x the stacking buffer for 1.3 / 1.6 / 1.9 x the overlap-detection length (inside the "
-                       "window: must be STACKED TRACES) or 0.6 x (clearly below: must not), or for 1.6 x at 1.3 x the buffer (clearly outside: must not); 8 orientations "
+    res = StreamResult("S10-stacking", rule="a trace planted alongside a longer one at 0.5 x the stacking buffer for 1.3 / 1.6 / 1.9 x the overlap-detection length, or at 0.95 x the buffer (the outer "
+                       "edge of the window, where the candidate search must still reach) for 2.6 x (inside the window: must be STACKED TRACES) or 0.6 x (clearly below: must not), or for 1.6 x at 1.3 x the buffer (clearly outside: must not); 8 orientations "
                        "incl. axis-parallel and 45 degrees x 3 start positions x offsets 0 / 1e3 / 1e7 x thresholds 0.01 / 0.001; the quick tier takes a seeded third; "
                        "non-trivial = placement inside the window")
     rng = rng_for(ctx.seed, "S10k")
@@ -181,7 +181,7 @@ def s10_stacking(ctx):
         D, B = 50.0 * t, 5.0 * M * t
         for offset in (0.0, 1.0e3, 1.0e7):
             for ang in (0.0, 17.0, 30.0, 45.0, 61.0, 90.0, 118.0, 163.0):
-                for along, sepk, inside in ((1.3, 0.5, True), (1.6, 0.5, True), (1.9, 0.5, True), (0.6, 0.5, False), (1.6, 1.3, False)):
+                for along, sepk, inside in ((1.3, 0.5, True), (1.6, 0.5, True), (1.9, 0.5, True), (0.6, 0.5, False), (1.6, 1.3, False), (2.6, 0.95, True)):
                     for shift in (0.37, 1.21, 2.83):
                         if ctx.tier == "quick" and rng.random() > 0.34:
                             continue
